@@ -171,6 +171,10 @@ func CreateEntryWithIO(ctx context.Context, ipfsInstance coreiface.CoreAPI, iden
 
 	data.SetV(2)
 
+	// The key is an input of the pre-sign step (links nonce), set it before so
+	// that Verify, which runs the same step on the final entry, gets the same result
+	data.SetKey(identity.PublicKey)
+
 	if io, ok := io.(iface.IOPreSign); ok {
 		var err error
 		data, err = io.PreSign(data)
@@ -196,7 +200,6 @@ func CreateEntryWithIO(ctx context.Context, ipfsInstance coreiface.CoreAPI, iden
 		return nil, errmsg.ErrSigSign.Wrap(err)
 	}
 
-	data.SetKey(identity.PublicKey)
 	data.SetSig(signature)
 
 	data.SetIdentity(identity.Filtered())
